@@ -104,7 +104,11 @@ class ScriptedGenerator(np.random.Generator):
     def integers(self, low, high=None, size=None, **kw):
         if high is None:
             low, high = 0, low
-        n = int(high) - int(low)
+        n = int(high) - int(low) + (1 if kw.get('endpoint') else 0)
+        # (an index drawn this way is a choice among n alternatives)
+        self._s.seam.choice_calls.append(
+            {'stream': self._s.id, 'n': n, 'size': size, 'p': None,
+             'via': 'integers'})
         i = self._s.draw('i', size, 'integers', n)
         return int(low) + i
 
@@ -156,6 +160,9 @@ class ScriptedRandomState(np.random.RandomState):
     def randint(self, low, high=None, size=None, dtype=int):
         if high is None:
             low, high = 0, low
+        self._seam.choice_calls.append(
+            {'stream': self._s.id, 'n': int(high) - int(low), 'size': size,
+             'p': None, 'via': 'randint'})
         i = self._s.draw('i', size, 'g.randint', int(high) - int(low))
         return int(low) + i
 
